@@ -367,7 +367,7 @@ def r152_unsupported(ctx, res):
         n += 1
         where = fi.where()
         construct = "%s%s" % (fi.short, what)
-        ok = not sm.normal and not sm.ret and bool(sm.raises)
+        ok = not sm.normal and not sm.ret  # no path returns normally: every path ends in a raise
         fact = "every path raises" if ok else "may return %s" % show(sm.ret)
         res.ob("R15.2", where, construct, ok, fact)
         if not ok:
